@@ -88,6 +88,16 @@ def fact_arg(N, cols, pattern, form):
         iv = vals.astype(numpy.int64)
         iv[~va] = -999
         arg = (iv, va)
+    elif form in ("uint8", "uint16", "uint64", "int16", "int32"):
+        # other integer dtypes: a (values, validity) pair hiding the type's largest value under False validity, or - when nothing is
+        # missing - the bare array
+        iv = vals.astype(form)
+        iv[~va] = numpy.iinfo(form).max
+        arg = (iv, va) if (~va).any() else iv
+    elif form == "float32":
+        vals = vals.astype(numpy.float32)
+        vals[~va] = NaN
+        arg = vals
     elif form in ("datetime", "datetime-nat"):
         dv = (numpy.array("2020-01-01", dtype="datetime64[D]") + vals.astype(numpy.int64)).astype("datetime64[D]")
         dv[~va] = numpy.datetime64("NaT")
@@ -408,7 +418,7 @@ def check_data(datas, N, cfg, acc, only=None):
 
     # ---------------- min / max
     if want("min") or want("max"):
-        for form in ("nan", "pair-huge", "int", "datetime", "datetime-nat"):
+        for form in ("nan", "pair-huge", "int", "datetime", "datetime-nat", "uint8", "uint16", "uint64", "int16", "int32", "float32"):
             for pat in patterns(N, 1, fl):
                 for ignore in (False, True):
                     for stat, op in (("min", min), ("max", max)):
